@@ -108,6 +108,20 @@ def _name(ex):
     return type(ex).__name__
 
 
+def _summary(obj, prefix):
+    """[present, mean, median, lo, hi] of the length_* / age_* attributes (values in units of 1/LSCALE)"""
+    mean = getattr(obj, prefix + "_mean", None)
+    med = getattr(obj, prefix + "_median", None)
+    rng = getattr(obj, prefix + "_range", None)
+    if mean is None or med is None or not isinstance(rng, (list, tuple)) or len(rng) != 2:
+        return [False, [0, 0, False], [0, 0, False], -1, -1]
+    try:
+        return [True, proj.rat(float(mean) * proj.LSCALE), proj.rat(float(med) * proj.LSCALE),
+                _sc(rng[0], proj.LSCALE), _sc(rng[1], proj.LSCALE)]
+    except Exception:
+        return [False, [0, 0, False], [0, 0, False], -1, -1]
+
+
 def queries(ta, codes=None):
     """the per-tree and summary queries of the property, each with its own outcome"""
     _codes = codes.of_mask if codes is not None else proj.codes_of_mask
@@ -121,9 +135,12 @@ def queries(ta, codes=None):
         for nd in order:
             v = nd.annotations.get_value("support", None)
             sup.append(proj.rat(float(v)) if v is not None else [0, 0, False])
-        out["cons"] = {"raised": "", "g": g, "sup": sup}
+        # what the summariser wrote from the per-split multisets: length_* on the edges, age_* on the nodes
+        out["cons"] = {"raised": "", "g": g, "sup": sup,
+                       "esum": [_summary(nd.edge, "length") for nd in order],
+                       "asum": [_summary(nd, "age") for nd in order]}
     except Exception as ex:
-        out["cons"] = {"raised": _name(ex), "g": EMPTY_G, "sup": []}
+        out["cons"] = {"raised": _name(ex), "g": EMPTY_G, "sup": [], "esum": [], "asum": []}
     try:
         # a threshold below 1/2: the greedy consensus has to choose among incompatible splits (ties included)
         out["conslow"] = {"raised": "", "g": proj.tree_graph(ta.consensus_tree(min_freq=0.25, summarize_splits=False), codes=codes)}
